@@ -134,7 +134,7 @@ type c36DelayCase struct {
 }
 
 func TestVerifC36(t *testing.T) {
-	rep := vfNewReport("C36", "A: generated delay tables (0-6 entries incl. empty, zero and negative durations), release rates -2..9, idle timeout 0 or 1h, sequences of 5-60 Signal/Release/Reset/Level/GetDelay ops, non-trivial when the level became positive and a Signal or Release was clamped; B: Delay at every table level x context {none, already cancelled, 10ms deadline, 5s deadline, cancelled 10 ms into the delay without / with a far (60 s) deadline}; C: real idle timers (100-160 ms) with re-arming touches, reads before the deadline and the observed reset")
+	rep := vfNewReport("C36", "A: generated delay tables (0-6 entries incl. empty, zero and negative durations), release rates -2..9, idle timeout 0 or 1h, sequences of 5-60 Signal/Release/Reset/Level/GetDelay ops, non-trivial when the level became positive and a Signal or Release was clamped; B: Delay at every table level x context {none, already cancelled, 10ms deadline, 5s deadline, cancelled 10 ms into the delay without / with a far (60 s) deadline}; C: real idle timers (100-160 ms) with re-arming touches, reads before the deadline and the observed reset; C2: signal^k (k > release rate), real 60-120 ms idle reset observed, then one Release, reads, one Signal")
 	defer rep.Write()
 	r := vfNewRng(36)
 	var allOps, allImpl [][]string
@@ -412,6 +412,89 @@ func TestVerifC36(t *testing.T) {
 			if i == 0 {
 				rep.Sample(map[string]interface{}{"part": "C", "ops": ops, "impl": out})
 			}
+		}(i)
+	}
+	wg.Wait()
+
+	// ---- C2: Release after the idle timeout has already zeroed a high level ----------------
+	// signal^k with k > releaseRate, then nothing until the idle reset is observed, then a single
+	// Release: the level is 0 and must stay 0 (a Release never raises the level), the delay must
+	// be the table's first entry, and the next Signal goes to 1.
+	nC2 := vfScale(8, 150)
+	for i := 0; i < nC2; i++ {
+		idle := time.Duration(60+r.Intn(61)) * time.Millisecond
+		rate := 1 + r.Intn(3)
+		k := rate + 1 + r.Intn(4)
+		wg.Add(1)
+		sem <- struct{}{}
+		go func(i int) {
+			defer wg.Done()
+			defer func() { <-sem }()
+			table := []time.Duration{0, time.Millisecond, 2 * time.Millisecond, 3 * time.Millisecond, 4 * time.Millisecond, 5 * time.Millisecond, 6 * time.Millisecond, 7 * time.Millisecond, 8 * time.Millisecond}
+			th := New(table, rate, idle)
+			start := time.Now()
+			now := func() int64 { return int64(time.Since(start)) }
+			ops := []string{fmt.Sprintf("new %s %d %d", c36TableTok(table), rate, int64(idle))}
+			out := []string{"ok"}
+			replay := func() map[string]interface{} {
+				return map[string]interface{}{"delays": c36TableTok(table), "rate": rate, "idle_ns": int64(idle), "ops": append([]string(nil), ops...)}
+			}
+			var lastTouch int64
+			for j := 0; j < k; j++ {
+				tb := now()
+				th.Signal()
+				if j > 0 && now() >= lastTouch+int64(idle) {
+					rep.Count("C2:discarded-machine-too-slow")
+					return
+				}
+				lastTouch = tb
+				ops = append(ops, fmt.Sprintf("signal %d", tb))
+				out = append(out, "ok")
+			}
+			fired := false
+			for dl := time.Now().Add(20 * time.Second); time.Now().Before(dl); time.Sleep(time.Millisecond) {
+				if th.Level() == 0 {
+					fired = true
+					break
+				}
+			}
+			tf := now()
+			if !fired {
+				rep.Fail("idle-reset-missing", fmt.Sprintf("idle %v: level still %d after 20 s", idle, th.Level()), replay())
+				return
+			}
+			if tf < lastTouch+int64(idle) {
+				rep.Fail("idle-reset-early", fmt.Sprintf("idle %v: level 0 only %v after the last signal", idle, time.Duration(tf-lastTouch)), replay())
+				return
+			}
+			time.Sleep(2 * time.Millisecond)
+			ops = append(ops, fmt.Sprintf("fire %d", tf), "level")
+			out = append(out, "fired", fmt.Sprint(th.Level()))
+			before := th.Level()
+			tr := now()
+			th.Release()
+			after := th.Level()
+			ops = append(ops, fmt.Sprintf("release %d", tr), "level", "getdelay")
+			out = append(out, "ok", fmt.Sprint(after), fmt.Sprint(int64(th.GetDelay())))
+			if after > before {
+				rep.Fail("release-raised-the-level", fmt.Sprintf("rate %d, idle %v: %d Signals, idle timeout elapsed (level %d), then ONE Release: level %d, delay %v", rate, idle, k, before, after, th.GetDelay()), replay())
+			}
+			ts := now()
+			th.Signal()
+			lv := th.Level()
+			if now() < ts+int64(idle) {
+				ops = append(ops, fmt.Sprintf("signal %d", ts), "level")
+				out = append(out, "ok", fmt.Sprint(lv))
+				if lv != before+1 && after <= before {
+					rep.Fail("signal-step-wrong", fmt.Sprintf("after idle reset and a Release, Signal gave level %d, want %d", lv, before+1), replay())
+				}
+			}
+			mu.Lock()
+			allOps = append(allOps, ops)
+			allImpl = append(allImpl, out)
+			mu.Unlock()
+			rep.Case(fmt.Sprintf("C2:%d:%d", rate, k), true)
+			rep.Count("C2:release-after-idle-reset")
 		}(i)
 	}
 	wg.Wait()
